@@ -21,6 +21,10 @@ RULE = ("cross_val_score: random scattered datasets (14..34 points, scalar or 2-
         "and its prediction at the test rows goes to Coq, where the metric is computed in Q; serial scores must equal it, be bit-identical to "
         "delayed=True under the synchronous and threaded schedulers and to the delayed objects computed one by one in shuffled order, be "
         "bit-identical when rows outside train+test are perturbed, and the estimator passed in must keep its parameters and stay unfitted. "
+        "About 40% of the cross_val_score / score cases and half of the train_test_split cases hand verde non-square 2-D grids in which every "
+        "coordinate, data component and weight component independently has its own MEMORY layout (C, Fortran, transposed view of a transposed "
+        "copy, strided view) with the same logical element sequence, while the oracle uses the logical C-order rows; one cross-validator instance "
+        "is reused for two consecutive cross_val_score calls (bit-identical). "
         "score/score_estimator on held-out rows incl. constant data. train_test_split: arrays of distinct values (1-D and 2-D shaped), "
         "with/without weights, 1..3 components, random and blocked (spacing/shape): complementary, aligned, whole blocks. SplineCV: grids with a "
         "unique best, duplicate candidates and exact ties between different candidates (mindist below every distance), weights, scorers, "
@@ -137,6 +141,54 @@ def make_cv(rnd, vd, n):
     return k, "BlockShuffleSplit(%s,%d,test=%g,train=%s,rs=%d)" % (kw, ns, ts, tr, seed), lambda: vd.BlockShuffleSplit(n_splits=ns, test_size=ts, train_size=tr, random_state=seed, **kw)
 
 
+LAYOUTS = ("C", "F", "TT", "strided")
+GRID_SHAPES = [(3, 5), (2, 7), (4, 6), (3, 7), (5, 6), (4, 7), (2, 9), (4, 8), (5, 7), (3, 6), (3, 8)]
+
+
+def relayout(flat, shape, how):
+    """the logical C-order sequence [flat] as a 2-D array of the given shape with a chosen MEMORY layout:
+    C-contiguous, Fortran-contiguous, a transposed view of a transposed copy, or a strided view"""
+    a = np.asarray(flat, dtype=float).reshape(shape)
+    if how == "C":
+        out = a.copy()
+    elif how == "F":
+        out = np.asfortranarray(a)
+    elif how == "TT":
+        out = np.ascontiguousarray(a.T).T
+    else:
+        big = np.full((shape[0], 2 * shape[1]), -777.0)
+        big[:, ::2] = a
+        out = big[:, ::2]
+    assert out.shape == tuple(shape) and np.array_equal(np.ravel(out), np.ravel(a))
+    return out
+
+
+class Presenter:
+    """how a case hands its (logically 1-D) arrays to verde: unchanged, or as 2-D grids in which every coordinate,
+    data and weight array independently gets its own memory layout"""
+
+    def __init__(self, rnd, shape, ncoord, ncomp):
+        self.shape = shape
+        self.lay = None
+        if shape is not None:
+            while True:
+                self.lay = {"c": [rnd.choice(LAYOUTS) for _ in range(ncoord)],
+                            "d": [rnd.choice(LAYOUTS) for _ in range(ncomp)],
+                            "w": [rnd.choice(LAYOUTS) for _ in range(ncomp)]}
+                flat = self.lay["c"] + self.lay["d"] + self.lay["w"]
+                # at least one row-major and one column-major array, so that memory order and logical order differ
+                if any(x in ("C", "strided") for x in flat) and any(x in ("F", "TT") for x in self.lay["d"] + self.lay["c"]):
+                    break
+
+    def __call__(self, group, arrs):
+        if arrs is None or self.shape is None:
+            return arrs
+        return tuple(relayout(a, self.shape, self.lay[group][i]) for i, a in enumerate(arrs))
+
+    def describe(self):
+        return None if self.shape is None else {"shape": list(self.shape), "layouts": self.lay}
+
+
 def snapshot(est):
     """parameters and instance attributes of an estimator and everything nested in it"""
     out = [type(est).__name__, sorted(vars(est).keys()), repr(sorted((k, repr(v)) for k, v in est.get_params(deep=True).items()))]
@@ -164,8 +216,9 @@ def cvs_case(rnd, vd, kind):
     weighted = rnd.random() < 0.6
     scoring = rnd.choice([None, None, "r2", "neg_mean_squared_error", "neg_mean_absolute_error", "callable"])
     sc_arg = neg_wmax_scorer if scoring == "callable" else scoring
+    grid = rnd.choice(GRID_SHAPES) if rnd.random() < 0.4 else None
     for attempt in range(50):
-        coords, data, weights, rs = make_data(rnd, ncomp, weighted)
+        coords, data, weights, rs = make_data(rnd, ncomp, weighted, n=None if grid is None else grid[0] * grid[1])
         n = coords[0].size
         cvkind, cvname, cvf = make_cv(rnd, vd, n)
         fm = np.transpose([coords[0], coords[1]])
@@ -181,23 +234,31 @@ def cvs_case(rnd, vd, kind):
     else:
         raise RuntimeError("no usable split")
     name, est = make_estimator(rnd, vd, ncomp)
-    d_arg, w_arg = unwrap(data, ncomp), unwrap(weights, ncomp)
+    pres = Presenter(rnd, grid, 2, ncomp)
+    # what verde is given: the same logical arrays, possibly as 2-D grids with mixed memory layouts; the oracle below
+    # always works on the logical (C-order raveled) rows
+    c_arg, d_arg, w_arg = pres("c", coords), unwrap(pres("d", data), ncomp), unwrap(pres("w", weights), ncomp)
     before = snapshot(est)
     with warnings.catch_warnings():
         warnings.simplefilter("ignore")
-        obs = vd.cross_val_score(est, coords, d_arg, w_arg, cv=cvf(), scoring=sc_arg)
+        obs = vd.cross_val_score(est, c_arg, d_arg, w_arg, cv=cvf(), scoring=sc_arg)
         is_array = isinstance(obs, np.ndarray)
         obs = [float(s) for s in obs]
         reruns = []
         errors = []
+        # one cross-validator instance reused for two consecutive calls
+        shared = cvf()
+        if shared is not None:
+            for _ in range(2):
+                reruns.append([float(s) for s in vd.cross_val_score(est, c_arg, d_arg, w_arg, cv=shared, scoring=sc_arg)])
         for sched in ("synchronous", "threads"):
-            dl = vd.cross_val_score(est, coords, d_arg, w_arg, cv=cvf(), scoring=sc_arg, delayed=True)
+            dl = vd.cross_val_score(est, c_arg, d_arg, w_arg, cv=cvf(), scoring=sc_arg, delayed=True)
             try:
                 reruns.append([float(s) for s in dask.compute(*dl, scheduler=sched)])
             except Exception as exc:  # a crash of the delayed path is a difference from the serial path
                 reruns.append([])
                 errors.append("%s: %s: %s" % (sched, type(exc).__name__, exc))
-        dl = vd.cross_val_score(est, coords, d_arg, w_arg, cv=cvf(), scoring=sc_arg, delayed=True)
+        dl = vd.cross_val_score(est, c_arg, d_arg, w_arg, cv=cvf(), scoring=sc_arg, delayed=True)
         order = list(range(len(dl)))
         rnd.shuffle(order)
         res = {}
@@ -234,7 +295,7 @@ def cvs_case(rnd, vd, kind):
                 c2 = tuple(c.copy() for c in coords)
                 c2[0][slack] += rs.uniform(-1, 1, slack.size)
                 c2[1][slack] -= rs.uniform(-1, 1, slack.size)
-            probe[k] = float(vd.cross_val_score(est, c2, unwrap(d2, ncomp), unwrap(w2, ncomp), cv=cvf(), scoring=sc_arg)[k])
+            probe[k] = float(vd.cross_val_score(est, pres("c", c2), unwrap(pres("d", d2), ncomp), unwrap(pres("w", w2), ncomp), cv=cvf(), scoring=sc_arg)[k])
             nprobe += 1
         reruns.append(probe)
     untouched = (before == after) and is_array
@@ -243,25 +304,28 @@ def cvs_case(rnd, vd, kind):
         cN(n), cDt(data), copt_t(weights), cN(METRICS[scoring]), csplits, cDl(obs),
         clist([cDl(r) for r in reruns]), cNl(order), cDl(shuffled), cbool(untouched))
     inp = {"estimator": name, "cv": cvname, "scoring": scoring, "n": n, "components": ncomp, "weighted": weighted,
-           "data_seed": int(rs.randint(0, 2 ** 31 - 1)), "probed_splits": nprobe}
+           "data_seed": int(rs.randint(0, 2 ** 31 - 1)), "probed_splits": nprobe, "grid": pres.describe()}
     trivial = all(abs(s - 1) < 1e-9 or abs(s) < 1e-12 for s in obs)
     return Case(inp, {"scores": obs, "delayed": reruns[:2], "shuffled_order": order, "untouched": untouched, "delayed_errors": errors}, term,
-                "# verde.cross_val_score(%s, cv=%s, scoring=%s) on %d random points x %d components; see harness/c12.py cvs_case" % (name, cvname, scoring, n, ncomp),
-                kind + ":" + cvkind, nontrivial=not trivial)
+                "# verde.cross_val_score(%s, cv=%s, scoring=%s) on %d random points x %d components%s; see harness/c12.py cvs_case" % (
+                    name, cvname, scoring, n, ncomp, "" if grid is None else " as %s grids with memory layouts %s" % (grid, pres.lay)),
+                kind + ":" + cvkind + ("+grid" if grid else ""), nontrivial=not trivial)
 
 
 def score_case(rnd, vd, kind):
     from verde.base.utils import score_estimator
     ncomp = rnd.choice([1, 1, 2])
     weighted = rnd.random() < 0.6
-    coords, data, weights, rs = make_data(rnd, ncomp, weighted)
+    grid = rnd.choice([(2, 3), (2, 4), (3, 4), (2, 5), (3, 5), (4, 3)]) if rnd.random() < 0.4 else None
+    coords, data, weights, rs = make_data(rnd, ncomp, weighted, n=None if grid is None else rnd.randint(grid[0] * grid[1] + 10, 36))
     constant = kind == "score-constant"
     if constant:
         ncomp, weights, weighted = 1, None, False
         data = (np.full(coords[0].size, float(rnd.randint(-3, 3))),)
     n = coords[0].size
     idx = rs.permutation(n)
-    tr, te = np.sort(idx[: n - max(2, n // 3)]), np.sort(idx[n - max(2, n // 3):])
+    nte = max(2, n // 3) if grid is None else grid[0] * grid[1]
+    tr, te = np.sort(idx[: n - nte]), np.sort(idx[n - nte:])
     if constant:
         name, est = rnd.choice([("Trend(0)", vd.Trend(0)), ("KNeighbors(1)", vd.KNeighbors(1)), ("Trend(1)", vd.Trend(1))])
     else:
@@ -274,14 +338,18 @@ def score_case(rnd, vd, kind):
         est.fit(pick(coords, tr), unwrap(pick(data, tr), ncomp), unwrap(pick(weights, tr), ncomp))
         ct, dt, wt = pick(coords, te), pick(data, te), pick(weights, te)
         pred = as_tuple(est.predict(ct))
+        # the held-out rows as given to verde: possibly 2-D grids with mixed memory layouts
+        pres = Presenter(rnd, grid, 2, ncomp)
+        cg, dg, wg = pres("c", ct), unwrap(pres("d", dt), ncomp), unwrap(pres("w", wt), ncomp)
         if scoring is None:
-            obs = float(est.score(ct, unwrap(dt, ncomp), unwrap(wt, ncomp)))
+            obs = float(est.score(cg, dg, wg))
         else:
-            obs = float(score_estimator(neg_wmax_scorer if scoring == "callable" else scoring, est, ct, unwrap(dt, ncomp), unwrap(wt, ncomp)))
+            obs = float(score_estimator(neg_wmax_scorer if scoring == "callable" else scoring, est, cg, dg, wg))
     term = "c12_score %s %s %s %s %s" % (cDt(dt), copt_t(wt), cDt(pred), cN(METRICS[scoring]), cD(obs))
     return Case({"estimator": name, "scoring": scoring, "n_test": len(te), "components": ncomp, "weighted": weighted, "constant": constant,
-                 "data_seed": int(rs.randint(0, 2 ** 31 - 1))}, {"score": obs}, term,
-                "# %s.score / score_estimator(%s) on held-out rows; see harness/c12.py score_case" % (name, scoring), kind,
+                 "data_seed": int(rs.randint(0, 2 ** 31 - 1)), "grid": pres.describe()}, {"score": obs}, term,
+                "# %s.score / score_estimator(%s) on held-out rows%s; see harness/c12.py score_case" % (
+                    name, scoring, "" if grid is None else " as %s grids with memory layouts %s" % (grid, pres.lay)), kind + ("+grid" if grid else ""),
                 nontrivial=not constant)
 
 
@@ -299,10 +367,10 @@ def _tts_case(rnd, vd, kind):
     blocked = kind == "tts-blocked"
     ncomp = rnd.choice([1, 2, 3])
     weighted = rnd.random() < 0.6
-    two_d = rnd.random() < 0.35
+    two_d = rnd.random() < 0.5
     ncoord = rnd.choice([2, 2, 3])
     if two_d:
-        r, c = rnd.choice([(3, 4), (4, 5), (2, 6), (5, 5)])
+        r, c = rnd.choice([(3, 4), (4, 5), (2, 6), (5, 5), (6, 3), (3, 7), (5, 4), (2, 9)])
         n = r * c
     else:
         n = rnd.randint(6, 30)
@@ -321,10 +389,12 @@ def _tts_case(rnd, vd, kind):
     if blocked:
         bkw = {"spacing": rnd.choice([1.0, 1.5, 2.0, (1.5, 2.0)])} if rnd.random() < 0.6 else {"shape": rnd.choice([(2, 2), (2, 3), (3, 3)])}
     shp = (r, c) if two_d else (n,)
-    rsh = lambda t: None if t is None else tuple(a.reshape(shp) for a in t)  # noqa: E731
+    # 2-D inputs: every coordinate, data and weight grid independently gets its own memory layout; the row ids checked
+    # in Coq are those of the logical (C-order raveled) sequence
+    pres = Presenter(rnd, shp if two_d else None, ncoord, ncomp)
     with warnings.catch_warnings():
         warnings.simplefilter("ignore")
-        train, test = vd.train_test_split(rsh(coords), unwrap(rsh(data), ncomp), unwrap(rsh(weights), ncomp), **bkw, **kw)
+        train, test = vd.train_test_split(pres("c", coords), unwrap(pres("d", data), ncomp), unwrap(pres("w", weights), ncomp), **bkw, **kw)
         if blocked:
             fm = np.transpose([coords[0], coords[1]])
             split = next(vd.BlockShuffleSplit(n_splits=1, **bkw, **kw).split(fm))
@@ -343,9 +413,10 @@ def _tts_case(rnd, vd, kind):
                                       cds(*train), cds(*test))
     if not ok_shape:
         term = "Vboth"
-    return Case({"n": n, "shape": list(shp), "components": ncomp, "coords": ncoord, "weighted": weighted, "kwargs": {**{k: str(v) for k, v in bkw.items()}, **kw}},
+    return Case({"n": n, "shape": list(shp), "layouts": pres.lay, "components": ncomp, "coords": ncoord, "weighted": weighted, "kwargs": {**{k: str(v) for k, v in bkw.items()}, **kw}},
                 {"train_rows_coord0": [float(v) for v in train[0][0]], "test_rows_coord0": [float(v) for v in test[0][0]]}, term,
-                "# verde.train_test_split on %d points, %s %s; see harness/c12.py tts_case" % (n, bkw, kw), kind)
+                "# verde.train_test_split on %d points, %s %s%s; see harness/c12.py tts_case" % (
+                    n, bkw, kw, "" if not two_d else " as %s grids with memory layouts %s" % (shp, pres.lay)), kind + ("+grid" if two_d else ""))
 
 
 class _Future:
